@@ -4,7 +4,7 @@ from fractions import Fraction as Fr
 import streams
 from common import parse_q
 
-THEOREMS = ["LNN.C01_sound", "LNN.C01_no_contradiction", "LNN.C01_sound_infer"]
+THEOREMS = ["LNN.C01_sound", "LNN.C01_sound_infer", "LNN.C01_no_contradiction", "LNN.C01_no_model_contradiction"]
 MODULES = ["LnnVerif.Props.C01"]
 FACETS = {"bounds", "contra"}
 
